@@ -400,7 +400,20 @@ impl Plan for C18Plan {
                 "+", "-", "_", " ", "\t", "x", "X", "g", "G", "h", "o", "O", "l", ".", ",", ":",
                 "#", "$", "é", "１", "а", "\u{200b}", "0x", "%41",
             ];
-            let j = *rng.pick(&junk);
+            let any_ascii: String;
+            let j = if rng.chance(1, 3) {
+                // any ASCII character (argv cannot carry NUL) that is not a hex digit
+                let c = loop {
+                    let c = rng.range(1, 127) as u8;
+                    if !c.is_ascii_hexdigit() {
+                        break c;
+                    }
+                };
+                any_ascii = (c as char).to_string();
+                any_ascii.as_str()
+            } else {
+                *rng.pick(&junk)
+            };
             let at = rng.usize_below(digits.len() + 1);
             let mut d = digits.clone();
             d.insert_str(at, j);
